@@ -145,4 +145,32 @@ let () = iter_lines (fun line ->
       Printf.printf "encr %s %s %s\n" m t g
   | ["aes"; len] ->
       Printf.printf "aes %s %s\n" len (b01 (aes_key_ok (List.init (int_of_string len) (fun _ -> n_of_int 0))))
+  (* ---- phase 5: the offline handshake: translated handleEncryptionRequest and Encrypt on what crossed the wire ---- *)
+  | ["hs"; hid; lid; name; pub; token; key; c1; c2; h] ->
+      let name = bytes_of_hex name and pub = bytes_of_hex pub and token = bytes_of_hex token and key = bytes_of_hex key in
+      let c1 = bytes_of_hex c1 and c2 = bytes_of_hex c2 and hb = bytes_of_hex h in
+      let hid = z_of_dec hid and lid = z_of_dec lid in
+      let sha1 _ = hb in
+      let show_stream = function
+        | SEnc (k, iv) -> "E" ^ hex_of_bytes k ^ "/" ^ hex_of_bytes iv
+        | SDec (k, iv) -> "D" ^ hex_of_bytes k ^ "/" ^ hex_of_bytes iv
+        | SNil -> "nil" in
+      let show_field = function FString s -> "s" ^ hex_of_bytes s | FByteArray b -> "b" ^ hex_of_bytes b in
+      let show_ev = function
+        | EWrite (id, PFields fs) -> "W" ^ dec_of_z id ^ ":" ^ String.concat "," (List.map show_field fs)
+        | EWrite (id, PRaw _) -> "W" ^ dec_of_z id ^ ":raw"
+        | EReadResponse -> "R"
+        | ESetCipher (a, b) -> "C" ^ show_stream a ^ "+" ^ show_stream b
+        | EAuth (n, d) -> "A" ^ hex_of_bytes n ^ ":" ^ text_of d
+        | EJoin d -> "J" ^ text_of d in
+      let show tr = String.concat " " (List.map show_ev tr) in
+      let rsa_enc i _ m = if i = z_of_int 0 && m = key then Some c1 else if i = z_of_int 1 && m = token then Some c2 else None in
+      let decrypt c = if c = c1 then Some key else if c = c2 then Some token else None in
+      let b = match bot_handleEncryptionRequest (fun _ -> Some key) (fun _ -> Some (([], pub), token)) sha1 (fun _ -> false)
+                      (fun _ -> Some ()) (fun _ -> true) rsa_enc lid (fun _ -> false) [] (hid, PRaw []) with
+        | Ok (tr, e) -> show tr ^ " " ^ b01 e | Panic -> "panic" | OutOfFuel -> "fuel" in
+      let s = match auth_Encrypt (Some pub) (fun _ -> Some token) (fun _ -> false) hid (Some (lid, [])) lid
+                      (fun _ -> Some (c1, c2)) decrypt sha1 (fun _ _ -> Some ()) [] name with
+        | Ok (tr, (_, e)) -> show tr ^ " " ^ b01 e | Panic -> "panic" | OutOfFuel -> "fuel" in
+      Printf.printf "hs bot %s srv %s\n" b s
   | _ -> Printf.printf "?? %s\n" line)
